@@ -3,7 +3,8 @@
    `recover` (signature recovery over keccak(prefix, from, to)) is universally quantified;
    `moved`, `wf`, `qcoverb`, `seen_*`, `involved_open`, `idx*_ok` are defined in coq/model/M_MigrateSpec.v. *)
 From Coq Require Import ZArith List Bool.
-From FxV Require Import model.M_Migrate model.M_MigrateSpec model.M_MigrateCorr proofs.P_MigrateMature proofs.P_MigrateHist proofs.P_Migrate.
+From FxV Require Import model.M_Migrate model.M_MigrateSpec model.M_MigrateCorr model.M_MigrateFollow
+  proofs.P_MigrateMature proofs.P_MigrateHist proofs.P_Migrate proofs.P_MigrateFollow.
 Import ListNotations.
 Open Scope Z_scope.
 
@@ -49,6 +50,64 @@ Theorem C14_endblock_pays : forall s t, wf s -> qcoverb s = true ->
      bal_of (staking_endblock t s) a d = bal_of s a d + (if d =? bond_denom (cfg s) then payout t s a else 0)).
 Proof. exact endblock_pays. Qed.
 Print Assumptions C14_endblock_pays.
+
+(* "afterwards the target can withdraw, undelegate ... as the source could have".
+   Follow-up transactions (coq/model/M_MigrateFollow.v): delegate, undelegate, withdraw at the level of the
+   delegator-keyed records; everything computed on the validator side (rewards, new starting info, shares <->
+   tokens, completion time, unbonding id) is the answer of an arbitrary environment (env, ask, env_next) to a
+   query that contains the delegator's records but not its address.  `sim from to s s'` (M_MigrateSpec.v):
+   s' is s with the source's balances, delegations, starting infos, unbonding records and queue pairs under the
+   target's name, both well-formed and covered.
+   One step: whatever is accepted for an actor (the source or any third party) in the world WITHOUT migration is
+   accepted for the renamed actor in the migrated world, with the same environment, and the worlds stay related. *)
+Theorem C14_followup_step : forall (env : Type) (ask : env -> query -> vans) (env_next : env -> query -> env)
+    from to, from <> to -> forall e s s' o e1 t,
+  pool_nb (cfg s) <> from -> pool_nb (cfg s) <> to ->
+  sim from to s s' -> factor o <> to ->
+  fstep env ask env_next e s o = Ok (e1, t) ->
+  exists t', fstep env ask env_next e s' (ren_fop from to o) = Ok (e1, t') /\ sim from to t t'.
+Proof. exact sim_step. Qed.
+Print Assumptions C14_followup_step.
+
+(* every finite sequence of follow-ups commutes with the migration *)
+Theorem C14_followups_commute : forall (sigT : Type) (recover : Z -> Z -> sigT -> option Z)
+    (env : Type) (ask : env -> query -> vans) (env_next : env -> query -> env)
+    s from to sg s' e ops e1 t,
+  wf s -> qcoverb s = true -> balposb s = true ->
+  pool_nb (cfg s) <> from -> pool_nb (cfg s) <> to ->
+  migrate_tx sigT recover s from to sg = Ok s' ->
+  (forall o, In o ops -> factor o <> to) ->
+  fruns env ask env_next e s ops = Ok (e1, t) ->
+  exists t', fruns env ask env_next e s' (map (ren_fop from to) ops) = Ok (e1, t') /\ sim from to t t'.
+Proof. exact followups_commute. Qed.
+Print Assumptions C14_followups_commute.
+
+(* ... and at any such point the staking end blocker pays the target what it would have paid the source
+   (C14_matured_funds is the special case of the empty sequence) *)
+Theorem C14_followups_then_matured : forall from to s s' t,
+  from <> to -> sim from to s s' ->
+  (forall a v, ubd_of (staking_endblock t s') a v =
+     sel from to a (option_map (to_ubd to) (ubd_of (staking_endblock t s) from v)) None (ubd_of (staking_endblock t s) a v)) /\
+  (from <> pool_nb (cfg s) -> to <> pool_nb (cfg s) -> forall a d, a <> pool_nb (cfg s) ->
+     bal_of (staking_endblock t s') a d =
+       sel from to a (bal_of (staking_endblock t s) to d + bal_of (staking_endblock t s) from d) 0
+                     (bal_of (staking_endblock t s) a d)).
+Proof. exact sim_endblock. Qed.
+Print Assumptions C14_followups_then_matured.
+
+Theorem C14_followups_nonvacuous :
+  let s := ex_init in let s' := ex_after in
+  exists t t', fruns unit ex_ask ex_next tt s ex_ops = Ok (tt, t) /\
+               fruns unit ex_ask ex_next tt s' (map (ren_fop 1 5) ex_ops) = Ok (tt, t') /\
+  del_of t 1 13 = Some {| d_del := 1; d_val := 13; d_shares := 550 |} /\
+  del_of t' 5 13 = Some {| d_del := 5; d_val := 13; d_shares := 550 |} /\ del_of t' 1 13 = None /\
+  option_map (fun u => length (u_entries u)) (ubd_of t 1 13) = Some 3%nat /\
+  option_map (fun u => length (u_entries u)) (ubd_of t' 5 13) = Some 3%nat /\
+  del_of t 9 13 = None /\ del_of t' 9 13 = None /\
+  bal_of t 1 0 = 5000 + 7 + 7 + 7 - 50 /\ bal_of t' 5 0 = 5003 + 7 + 7 + 7 - 50 /\ bal_of t' 1 0 = 0 /\
+  ubd_slice t 1010 = [(1, 13); (9, 13)] /\ ubd_slice t' 1010 = [(5, 13); (9, 13)].
+Proof. exact followups_example. Qed.
+Print Assumptions C14_followups_nonvacuous.
 
 (* staking indexes: DelegationByValIndex 0x71, UnbondingDelegationByValIndex 0x33, RedelegationByValSrc/Dst
    0x35/0x36 and the unbonding-id index 0x38 are exact afterwards if they were before; every moved entry is
